@@ -183,10 +183,35 @@ def run_case(grid, specs):
     st = Scripted({("initialize", -1): [init], ("on_bar", "*"): [late], ("after_bar", "*"): [after]})
     act = make_actuator(markets, assets, st, prices, interval=f"{interval}min")
     err = None
+    import logging
+
+    debug = len(grid) > 3 and grid[3] == "debug-log"
+    loggers = [logging.getLogger(), logging.getLogger("Actuator")]
+    old_levels = [lg.level for lg in loggers]
+    sink = logging.NullHandler()
+    if debug:
+        # a user who turns on debug logging (logging.basicConfig(level=DEBUG)) changes what is printed, not what fires
+        for lg in loggers:
+            lg.setLevel(logging.DEBUG)
+        loggers[1].addHandler(sink)
+        loggers[1].propagate = False  # the records go to the null handler only
+        saved_handlers = [h for h in loggers[1].handlers if h is not sink]
+        for h in saved_handlers:
+            loggers[1].removeHandler(h)
+        logging.disable(logging.NOTSET)  # (the harness silences the library's logging process-wide; this run has it on, into a null handler)
     try:
         run_quiet(act)
     except Exception as e:  # the loop must not fail because of a time trigger
         err = f"{type(e).__name__}: {e}"
+    finally:
+        if debug:
+            for lg, lv in zip(loggers, old_levels):
+                lg.setLevel(lv)
+            loggers[1].removeHandler(sink)
+            loggers[1].propagate = True
+            for h in saved_handlers:
+                loggers[1].addHandler(h)
+            logging.disable(logging.CRITICAL)
     bars = [t[2] for t in st.trace if t[0] == "before_bar"]
     run_case.chained_at = dict(chained_at)
     FINISHED.append(({"grid": list(grid), "specs": [spec_json(x) for x in specs]}, fired, [len(f) for f in fired]))
@@ -264,6 +289,7 @@ def grids(thorough):
     for start in (0, 7):
         for interval, raw_len in ((1, 8), (2, 16), (5, 30)) if not thorough else ((1, 12), (2, 22), (5, 45)):
             out.append((start, interval, raw_len))
+    out.append((7, 2, 16, "debug-log"))
     out.append((0, 1, 8, "hourly"))
     out.append((7, 2, 16, "hourly"))
     return out
